@@ -102,10 +102,18 @@ def run_case(case, res):
             except AssertionError:
                 pass
 
+    # integration is linear: the same polynomials at a magnitude of 1e-9 / 1e-12 / 1e6 must come out scaled by that factor
+    fscale = 1.0 if rng.random() < 0.8 else rng.choice([1e-9, 1e-12, 1e6])
+    cfg["integrand_scale"] = fscale
+    if fscale != 1.0:
+        res.count("integrand_magnitude_not_one")
+
     def integrate(grid, degs_list, lv=None):
         comps, exact = poly_components(degs_list, a, b)
+        if fscale != 1.0:
+            comps = [(lambda q, g=g: fscale * g(q)) for g in comps]
         f = hooks.VFunction(comps)
-        val = np.atleast_1d(np.asarray(grid.integrate(f, lv or [max(l) for l in levs], an, bn), dtype=float))
+        val = np.atleast_1d(np.asarray(grid.integrate(f, lv or [max(l) for l in levs], an, bn), dtype=float)) / fscale
         return val, np.array(exact)
 
     if kind.startswith("trap"):
